@@ -41,15 +41,32 @@ var phoutLineRe = regexp.MustCompile(`^[0-9]+\.[0-9]{3}\t[^\t\n#]*#([0-9]+)(\t-?
 //	had        1 iff at least one report was complete before the cancel
 //	lines      first, middle and last complete line of the file (hex), for the model's parser
 func runSignal(f []string) (obs string) {
-	bin := os.Getenv("PANDORA_VERIF_BIN")
-	if bin == "" {
-		return "nobinary"
-	}
-	sigName := f[1]
 	delay, _ := strconv.Atoi(f[2])
 	instances, _ := strconv.Atoi(f[3])
 	workUs, _ := strconv.Atoi(f[4])
 	bufBytes, _ := strconv.Atoi(f[5])
+	return runProc(f[1], delay, instances, workUs, bufBytes, 0)
+}
+
+// fail <after-shots> <instances> <work-us> <buffer-bytes>
+//
+// The same subprocess, no signal: the shot that draws id <after-shots> panics (gun fault), the
+// instance fails, Engine.Run returns an error and the cli takes its failed-run branch
+// ("Engine run failed. Awaiting started tasks."). Observation as for signal cases; the orderly
+// exit is "failed" (log.Fatal after pandora.Wait() returned), "timeout" = the await timeout fired.
+func runFail(f []string) (obs string) {
+	after, _ := strconv.Atoi(f[1])
+	instances, _ := strconv.Atoi(f[2])
+	workUs, _ := strconv.Atoi(f[3])
+	bufBytes, _ := strconv.Atoi(f[4])
+	return runProc("", 0, instances, workUs, bufBytes, after)
+}
+
+func runProc(sigName string, delay, instances, workUs, bufBytes, failAfter int) (obs string) {
+	bin := os.Getenv("PANDORA_VERIF_BIN")
+	if bin == "" {
+		return "nobinary"
+	}
 	dir := filepath.Join(filepath.Dir(bin), fmt.Sprintf("shot-%d", atomic.AddInt64(&shotSeq, 1)))
 	if err := os.MkdirAll(dir, 0o755); err != nil {
 		return "setup-failed"
@@ -67,6 +84,7 @@ func runSignal(f []string) (obs string) {
       type: verif-gun
       sidelog: %s
       work: %dus
+      failafter: %d
     ammo:
       type: dummy
     result:
@@ -81,7 +99,7 @@ func runSignal(f []string) (obs string) {
       times: %d
 log:
   level: error
-`, side, workUs, phout, buffer, instances)
+`, side, workUs, failAfter, phout, buffer, instances)
 	confPath := filepath.Join(dir, "load.yaml")
 	if err := os.WriteFile(confPath, []byte(conf), 0o644); err != nil {
 		return "setup-failed"
@@ -94,20 +112,22 @@ log:
 	if err := cmd.Start(); err != nil {
 		return "start-failed"
 	}
-	// the delay counts from the first report (the signal handler is installed right after the
-	// engine was started; a signal during process start-up would just kill it by default action)
-	for i := 0; i < 3000; i++ {
-		if st, err := os.Stat(side); err == nil && st.Size() > 0 {
-			break
+	if sigName != "" {
+		// the delay counts from the first report (the signal handler is installed right after the
+		// engine was started; a signal during process start-up would just kill it by default action)
+		for i := 0; i < 3000; i++ {
+			if st, err := os.Stat(side); err == nil && st.Size() > 0 {
+				break
+			}
+			time.Sleep(5 * time.Millisecond)
 		}
-		time.Sleep(5 * time.Millisecond)
+		time.Sleep(time.Duration(delay) * time.Millisecond)
+		sig := syscall.SIGINT
+		if sigName == "TERM" {
+			sig = syscall.SIGTERM
+		}
+		_ = cmd.Process.Signal(sig)
 	}
-	time.Sleep(time.Duration(delay) * time.Millisecond)
-	sig := syscall.SIGINT
-	if sigName == "TERM" {
-		sig = syscall.SIGTERM
-	}
-	_ = cmd.Process.Signal(sig)
 	done := make(chan error, 1)
 	go func() { done <- cmd.Wait() }()
 	exit := ""
@@ -119,8 +139,10 @@ log:
 		}
 		text := out.String()
 		switch {
-		case strings.Contains(text, "Interrupt timeout exceeded"):
+		case strings.Contains(text, "Interrupt timeout exceeded") || strings.Contains(text, "Engine tasks timeout exceeded"):
 			exit = "timeout"
+		case strings.Contains(text, "Pandora graceful shutdown successfully finished") && rc == 1:
+			exit = "failed"
 		case strings.Contains(text, "Another signal received"):
 			exit = "second-signal"
 		case strings.Contains(text, "Engine interrupted") && rc == 1:
@@ -212,6 +234,29 @@ log:
 	}
 	return fmt.Sprintf("%s missing=%d dup=%d malformed=%d tail=%d foreign=%d had=%s lines:%s info:pre=%d,sidelog=%d,filelines=%d,filebytes=%d,notinsidelog=%d",
 		exit, missing, dup, malformed, tail, foreign, vh.B(len(pre) > 0), linesField, len(pre), len(all), len(complete), len(data), foreignN)
+}
+
+// failed-run shots: quick 1 (in the corpus), thorough 30 (C06_FAIL_SHOTS overrides)
+func genFail(r *vh.Rand, tier string) []string {
+	if os.Getenv("PANDORA_VERIF_BIN") == "" {
+		return nil
+	}
+	shots := 0 // quick: the one shot of corpus/C06/seeds.txt
+	if tier == "thorough" {
+		shots = 30
+	}
+	if v, err := strconv.Atoi(os.Getenv("C06_FAIL_SHOTS")); err == nil {
+		shots = v
+	}
+	var out []string
+	for i := 0; i < shots; i++ {
+		if i%3 == 0 { // full-speed reporters: the fault hits with a large unflushed buffer
+			out = append(out, fmt.Sprintf("fail %d 4 0 0", 150000+r.Intn(500000)))
+		} else {
+			out = append(out, fmt.Sprintf("fail %d %d %d %d", 1000+r.Intn(300000), r.PickInt([]int{1, 2, 4, 8}), r.PickInt([]int{0, 0, 5, 50}), r.PickInt([]int{0, 0, 65536, 1 << 20})))
+		}
+	}
+	return out
 }
 
 func genSignal(r *vh.Rand, tier string) []string {
